@@ -80,10 +80,10 @@ CLAIMED = {
    technique="Coq proof (universal in matrix and symbol group) + hypothesis evaluation on C-built matrices + zero-symbol oracle",
    ref="3/C15"),
  "C16": dict(
-   text="Exploration only (codec 5 is not modelled in Coq yet): for every accepted (k, n-k) the dumped matrix is checked to be the d x l product single-parity matrix; every received subset of the small shapes and random subsets of all shapes are decoded through both APIs with finish: no wrong symbol, completion iff the checks determine the sources (independent GF(2) oracle), callbacks, read-only buffers, no leak after release.",
-   note="Trusted: drv_dec.c, python oracles. The generic IT theorem (C04) applies to any well-formed matrix, but the instantiation to the 2D matrix has not been stated.",
-   technique="(no proof yet) structure check + independent GF(2) oracle over exhaustive/random received sets",
-   ref="3/C16", cat="exploration"),
+   text="Machine-checked proofs (Coq, no axioms) for ALL d, l >= 1 about the model of the 2D matrix construction (Pchk2D.v, on the proved sparse-matrix model, the C's swapped-argument call included) decoded by the generic streaming-decoder model and encoded by the generic builder: each check has its own repair symbol and no other, every source symbol is in exactly one row check and one column check (closed form of every row), the parameter search accepts only product shapes and builds exactly that matrix; the encoder satisfies every check and leaves sources untouched; the streaming decoder never holds a wrong symbol, makes available exactly the peeling closure of the received set (any order, duplicates), and recovers any single loss whatever the arrival order. The model's acceptance and matrix are compared with the compiled C for every (k, n-k) with k <= 16, n <= 24 (and a margin beyond). Not theorems yet: of_finish_decoding (ML) recovering exactly the uniquely determined patterns and leak-free release: decided on the compiled C (every received subset of the small shapes, random subsets of all, both APIs, independent GF(2) oracle, allocation accounting) and by the IT/ML model correspondence on every finish session.",
+   note="Trusted: Coq kernel; Pchk2D.v mirror of of_create_2D_pchk_matrix/of_fill_2D_pchk_matrix (integer arithmetic instead of the C's floats, tied by the exhaustive pair comparison); the codec-5 API glue (cast to the generic control block) is not modelled; extraction; drivers; oracles.",
+   technique="Coq proofs over a hand-written matrix model instantiating the generic IT decoder / encoder theorems + exhaustive model-vs-C matrix correspondence over the parameter domain + GF(2) oracle on the C for ML completeness",
+   ref="3/C16", cat="proof"),
  "C17": dict(
    text="Machine-checked proof (Coq, no axioms) that the Gallina model of the sparse matrix (two consistent families of strictly increasing lists + entry-pool counters; find/insert with the C's last-entry shortcuts and front walks) refines the abstract set of (row, column) pairs: find = membership, insert adds exactly one pair and is idempotent, delete removes exactly one, clear empties, bulk insertion (copy, copyrows, copycols, copy_filled_matrix, dense->sparse) and copy yield the stated sets, every traversal is strictly increasing and enumerates exactly its row/column, and blocks*1024 = free + live entries in every reachable state (so free releases everything), for all dimensions and all operation sequences. Tied to the C by comparing result, all row and column traversals and the pool summary after every operation of generated sequences (extracted model vs C under ASan) plus an independent python set oracle.",
    note="Trusted: Coq kernel; Sparse.v models the linked lists by what their traversals enumerate, pointer surgery itself is only observed under ASan; BLOCK = 1024 is compared with of_mod2sparse_block on every run; extraction + drivers. No axioms.",
